@@ -177,6 +177,10 @@ class NodePathParser(object):
         elif self.current_token != '':
             raise unexpected_char_error(self.current_token[0], self.pos - len(self.current_token))
 
+        else:
+            # e.g. a subset specifier with no path, or a slice that is not closed
+            raise PathExprParsingError('unexpected end of path expression: {!r}'.format(path_expr))
+
         return self.node_path
 
     def handle_left_bracket(self):
